@@ -133,16 +133,25 @@ def run(ctx):
                 eff = md
                 ctx.count("exact_threshold_tie_cases_with_threshold")
         wit = dict(query=q, candidates=[c.tolist() for c in ca], options=opts, use_lb=use_lb, use_c=use_c, max_dist=md,
-                   max_value=mv, order=order, ndim=nd)
+                   max_value=mv, order=order, ndim=nd, max_dist_inside_options=None)
 
         via_helper = rng.random() < 0.3
+        # documented precedence: a max_dist inside dists_options is ignored when the max_dist argument is given
+        stale_md = None
+        if md is not None and rng.random() < 0.3:
+            stale_md = md * rng.choice([0.25, 4.0])
+            ctx.count("options_with_a_second_max_dist")
+            wit["max_dist_inside_options"] = stale_md
         can_c = isinstance(opts.get("inner_dist", ""), str)
 
         def fresh():
+            o_ = dict(opts)
+            if stale_md is not None:
+                o_["max_dist"] = stale_md
             if via_helper:
                 ctx.count("objects_built_by_helper")
-                return subsequence_search(qa, ca, dists_options=dict(opts), use_lb=use_lb, max_dist=md, max_value=mv, use_c=use_c)
-            return SubsequenceSearch(qa, ca, dists_options=dict(opts), use_lb=use_lb, max_dist=md, max_value=mv, use_c=use_c)
+                return subsequence_search(qa, ca, dists_options=o_, use_lb=use_lb, max_dist=md, max_value=mv, use_c=use_c)
+            return SubsequenceSearch(qa, ca, dists_options=o_, use_lb=use_lb, max_dist=md, max_value=mv, use_c=use_c)
 
         def answer(obj, op):
             kind_, k = op
